@@ -158,7 +158,7 @@ LossOff ==
 OneShot ==
   /\ CanFault            \* (a second one-shot disturbance replaces a pending one, as in the harness)
   /\ \E p \in {q \in {<<"drop">>, <<"dup">>} : q[1] \in Kinds} \cup {<<"delay", d>> : d \in (IF "delay" \in Kinds THEN Delays ELSE {})} :
-       /\ pf' = p /\ obs' = <<FaultEv(p[1], "")>>
+       /\ pf' = p /\ obs' = <<IF p[1] = "delay" THEN [d |-> p[2]] @@ FaultEv("delay", "") ELSE FaultEv(p[1], "")>>
   /\ nf' = nf + 1
   /\ UNCHANGED <<nd, up, net, lossy, clk, fresh>>
 Fault == (\E x \in Nodes : Crash(x) \/ Restart(x) \/ Stop(x) \/ Start(x)) \/ LossOn \/ LossOff \/ OneShot
